@@ -1,5 +1,5 @@
 import Verif.Proofs.MemHist
-import Verif.Facts.MemAlloc
+import Verif.Facts.MemAllocStat
 import Verif.Facts.MemClear
 /-
   C06 — An access statistic counts exactly the accesses that reached that physical byte.
